@@ -108,6 +108,9 @@ func (e *execSet) run(cs Case) bool {
 			}
 			e.ch = x
 		}
+		if cs.Lazy != "" && cs.Obj == nil {
+			cs = e.ch.materialiseLazy(cs)
+		}
 		e.s.WAL(cs)
 		e.ch.exec(cs)
 	}
